@@ -2,7 +2,7 @@
    Method: a recursive reference search `dfs` (explore the predecessors of a node in sorted order, stop at the first
    node that is already on the current path) is shown to be what the explicit-stack loop computes (`fc_loop_dfs`,
    with the exact number of iterations), and soundness / completeness / termination are proved on `dfs`. *)
-From Coq Require Import List NArith Arith Bool Lia Permutation.
+From Coq Require Import List NArith Arith Bool Lia Permutation DecimalN.
 Import ListNotations.
 From LLB Require Import Engine.FindCycle.
 
@@ -610,4 +610,287 @@ Section Proofs.
       + exfalso. apply Hne. unfold fc_reference. rewrite E. reflexivity.
     - intros Hc. exists fc_reference. split; [reflexivity|]. intros He. apply fc_reference_empty_iff in He. exact (He Hc).
   Qed.
+
+  (* ---------- the stalled-engine case needs only linear fuel: the search never backtracks ---------- *)
+
+  Definition nde (x : key) : Prop := forall w, chain (x :: w) -> exists p, dep (last (x :: w) x) p.
+
+  Lemma nde_step x p : nde x -> dep x p -> nde p.
+  Proof.
+    intros Hx Hd w Hc. destruct (Hx (p :: w) (chain_cons x p w Hd Hc)) as [q Hq]. exists q.
+    change (last (x :: p :: w) x) with (last (p :: w) x) in Hq. rewrite (last_cons_default p w p x). exact Hq.
+  Qed.
+
+  Lemma nde_found : forall k x items, nde x -> In x V -> NoDup items -> incl items V -> length V <= k + length items ->
+    exists r, dfs k x items = DFound r /\ dfs_steps k x items = length r.
+  Proof.
+    induction k as [|k IH]; intros x items Hn Hx Hnd Hincl Hlen.
+    - pose proof (dfs_no_depth V V_closed 0 x items Hx Hnd Hincl Hlen) as Hd. cbn [dfs dfs_steps] in *.
+      destruct (mem_key x items); [exists [x]; split; reflexivity | exfalso; apply Hd; reflexivity].
+    - cbn [dfs dfs_steps]. destruct (mem_key x items) eqn:Em; [exists [x]; split; reflexivity|].
+      apply mem_key_false in Em.
+      destruct (Hn [] I) as [p Hp]. cbn in Hp. apply preds_In in Hp.
+      destruct (preds x) as [|p0 t] eqn:Eps; [destruct Hp|].
+      assert (Hd0 : dep x p0) by (apply preds_In; rewrite Eps; left; reflexivity).
+      destruct (IH p0 (x :: items)) as [r [Hr Hs]].
+      + apply (nde_step x); assumption.
+      + apply (V_closed x). exact Hd0.
+      + constructor; assumption.
+      + intros y [Hy|Hy]; [subst y; exact Hx | apply Hincl; exact Hy].
+      + cbn [length]. lia.
+      + exists (x :: r). cbn [scan_children children_steps]. rewrite Hr. split; [reflexivity|]. rewrite Hs. reflexivity.
+  Qed.
+
+  Theorem fc_stall_linear fuel : no_dead_end -> S (length V) <= fuel ->
+    exists l, findCycle klt g root fuel = FcDone l /\ l <> [].
+  Proof.
+    intros Hn Hf.
+    destruct (nde_found (length V) root [] Hn V_root (NoDup_nil _) (fun y (H : In y []) => match H with end)) as [r [Hr Hs]];
+      [cbn [length]; lia|].
+    pose proof (fc_loop_dfs (length V) root [] [] []) as Hsim. rewrite Hr in Hsim.
+    pose proof Hr as Hsound. apply dfs_sound in Hsound. destruct Hsound as [pre [z [Hrz [Hh [Hc [Hz [Hnd _]]]]]]].
+    rewrite app_nil_r in Hz.
+    assert (Hlen : length r <= S (length V)).
+    { destruct pre as [|a pre]; [destruct Hz|]. cbn in Hh. subst a.
+      assert (Hin : incl (root :: pre) V).
+      { subst r. change ((root :: pre) ++ [z]) with (root :: pre ++ [z]) in Hc.
+        pose proof (chain_in_V _ _ V_root Hc) as Hi. intros y Hy. apply Hi.
+        destruct Hy as [Hy|Hy]; [left; exact Hy | right; apply in_or_app; left; exact Hy]. }
+      pose proof (NoDup_incl_length Hnd Hin) as Hl. subst r. rewrite app_length. cbn [length] in *. lia. }
+    exists r. split.
+    - unfold findCycle. replace fuel with (dfs_steps (length V) root [] + (fuel - dfs_steps (length V) root [])) by lia.
+      rewrite Hsim. reflexivity.
+    - subst r. destruct pre; discriminate.
+  Qed.
 End Proofs.
+
+(* ---------- the unspecified iteration order of the unordered_maps does not matter ---------- *)
+
+Section EdgeOrder.
+  Variable klt : key -> key -> bool.
+  Hypothesis klt_asym : forall a b, klt a b = true -> klt b a = false.
+  Hypothesis klt_trans : forall a b c, klt a b = true -> klt b c = true -> klt a c = true.
+  Hypothesis klt_total : forall a b, klt a b = false -> klt b a = false -> a = b.
+
+  Lemma insert_key_comm x y : forall l, insert_key klt x (insert_key klt y l) = insert_key klt y (insert_key klt x l).
+  Proof.
+    induction l as [|z l IH].
+    - cbn [insert_key]. destruct (klt x y) eqn:Exy; destruct (klt y x) eqn:Eyx; try reflexivity.
+      + rewrite (klt_asym _ _ Exy) in Eyx. discriminate Eyx.
+      + rewrite (klt_total _ _ Exy Eyx). reflexivity.
+    - cbn [insert_key]. destruct (klt y z) eqn:Eyz; destruct (klt x z) eqn:Exz; cbn [insert_key].
+      + rewrite Eyz, Exz. destruct (klt x y) eqn:Exy; destruct (klt y x) eqn:Eyx; try reflexivity.
+        * rewrite (klt_asym _ _ Exy) in Eyx. discriminate Eyx.
+        * rewrite (klt_total _ _ Exy Eyx). reflexivity.
+      + rewrite Eyz, Exz. destruct (klt x y) eqn:Exy; [|reflexivity].
+        rewrite (klt_trans _ _ _ Exy Eyz) in Exz. discriminate Exz.
+      + rewrite Eyz, Exz. destruct (klt y x) eqn:Eyx; [|reflexivity].
+        rewrite (klt_trans _ _ _ Eyx Exz) in Eyz. discriminate Eyz.
+      + rewrite Eyz, Exz. rewrite IH. reflexivity.
+  Qed.
+
+  Lemma sort_keys_perm l l' : Permutation l l' -> sort_keys klt l = sort_keys klt l'.
+  Proof.
+    intros H. induction H as [|x l l' H IH|x y l|l l' l'' H1 IH1 H2 IH2]; cbn [sort_keys].
+    - reflexivity.
+    - rewrite IH. reflexivity.
+    - apply insert_key_comm.
+    - rewrite IH1. exact IH2.
+  Qed.
+
+  Lemma filter_perm {A} (f : A -> bool) l l' : Permutation l l' -> Permutation (filter f l) (filter f l').
+  Proof.
+    intros H. induction H as [|x l l' H IH|x y l|l l' l'' H1 IH1 H2 IH2]; cbn [filter].
+    - constructor.
+    - destruct (f x); [constructor; exact IH | exact IH].
+    - destruct (f x); destruct (f y); try apply Permutation_refl. constructor.
+    - apply (Permutation_trans IH1 IH2).
+  Qed.
+
+  Lemma preds_perm g g' x : Permutation g g' -> preds klt g x = preds klt g' x.
+  Proof.
+    intros H. unfold preds, preds_unsorted. apply sort_keys_perm. apply Permutation_map. apply filter_perm. exact H.
+  Qed.
+
+  Lemma fc_loop_preds_ext g g' : (forall x, preds klt g x = preds klt g' x) ->
+    forall fuel stack cl its, fc_loop klt g fuel stack cl its = fc_loop klt g' fuel stack cl its.
+  Proof.
+    intros He. induction fuel as [|f IH]; intros stack cl its; [reflexivity|].
+    destruct stack as [|[x i] rest]; [reflexivity|].
+    cbn [fc_loop]. rewrite He. rewrite !IH. reflexivity.
+  Qed.
+
+  (* the edges can be listed in any order: predecessorGraph is the same after the std::sort calls *)
+  Theorem fc_edge_order_irrelevant g g' root fuel :
+    Permutation g g' -> findCycle klt g root fuel = findCycle klt g' root fuel.
+  Proof.
+    intros H. unfold findCycle. apply fc_loop_preds_ext. intros x. apply preds_perm. exact H.
+  Qed.
+End EdgeOrder.
+
+(* ---------- the order of the harness key names is a strict total order ---------- *)
+
+Lemma lex_ltb_asym : forall a b, lex_ltb a b = true -> lex_ltb b a = false.
+Proof.
+  induction a as [|x a IH]; intros b H; destruct b as [|y b]; cbn [lex_ltb] in *; try reflexivity; try discriminate H.
+  destruct (N.ltb x y) eqn:E1; destruct (N.ltb y x) eqn:E2; try reflexivity.
+  - apply N.ltb_lt in E1. apply N.ltb_lt in E2. lia.
+  - discriminate H.
+  - apply IH. exact H.
+Qed.
+
+Lemma lex_ltb_trans : forall a b c, lex_ltb a b = true -> lex_ltb b c = true -> lex_ltb a c = true.
+Proof.
+  induction a as [|x a IH]; intros b c H1 H2; destruct b as [|y b]; destruct c as [|z c]; cbn [lex_ltb] in *;
+    try reflexivity; try discriminate H1; try discriminate H2.
+  destruct (N.ltb x y) eqn:E1; destruct (N.ltb y z) eqn:E2.
+  - apply N.ltb_lt in E1. apply N.ltb_lt in E2. assert (E : N.ltb x z = true) by (apply N.ltb_lt; lia). rewrite E. reflexivity.
+  - destruct (N.ltb z y) eqn:E3; [discriminate H2|].
+    apply N.ltb_lt in E1. apply N.ltb_ge in E2. apply N.ltb_ge in E3.
+    assert (E : N.ltb x z = true) by (apply N.ltb_lt; lia). rewrite E. reflexivity.
+  - destruct (N.ltb y x) eqn:E3; [discriminate H1|].
+    apply N.ltb_lt in E2. apply N.ltb_ge in E1. apply N.ltb_ge in E3.
+    assert (E : N.ltb x z = true) by (apply N.ltb_lt; lia). rewrite E. reflexivity.
+  - destruct (N.ltb y x) eqn:E3; [discriminate H1|]. destruct (N.ltb z y) eqn:E4; [discriminate H2|].
+    apply N.ltb_ge in E1. apply N.ltb_ge in E2. apply N.ltb_ge in E3. apply N.ltb_ge in E4.
+    assert (x = y) by lia. assert (y = z) by lia. subst y z. rewrite N.ltb_irrefl. apply (IH b c); assumption.
+Qed.
+
+Lemma lex_ltb_total : forall a b, lex_ltb a b = false -> lex_ltb b a = false -> a = b.
+Proof.
+  induction a as [|x a IH]; intros b H1 H2; destruct b as [|y b]; cbn [lex_ltb] in *; try reflexivity; try discriminate H1; try discriminate H2.
+  destruct (N.ltb x y) eqn:E1; [discriminate H1|]. destruct (N.ltb y x) eqn:E2; [discriminate H2|].
+  apply N.ltb_ge in E1. apply N.ltb_ge in E2. assert (x = y) by lia. subst y. f_equal. apply IH; assumption.
+Qed.
+
+Lemma uint_digits_inj : forall u v, uint_digits u = uint_digits v -> u = v.
+Proof.
+  induction u as [|u IH|u IH|u IH|u IH|u IH|u IH|u IH|u IH|u IH|u IH]; intros v H; destruct v; cbn [uint_digits] in H;
+    try discriminate H; try reflexivity; injection H as H; f_equal; apply IH; exact H.
+Qed.
+
+Lemma key_name_digits_inj a b : key_name_digits a = key_name_digits b -> a = b.
+Proof.
+  unfold key_name_digits. intros H. apply uint_digits_inj in H.
+  rewrite <- (DecimalN.Unsigned.of_to a), <- (DecimalN.Unsigned.of_to b), H. reflexivity.
+Qed.
+
+Lemma klt_name_asym a b : klt_name a b = true -> klt_name b a = false.
+Proof. apply lex_ltb_asym. Qed.
+Lemma klt_name_trans a b c : klt_name a b = true -> klt_name b c = true -> klt_name a c = true.
+Proof. apply lex_ltb_trans. Qed.
+Lemma klt_name_total a b : klt_name a b = false -> klt_name b a = false -> a = b.
+Proof. intros H1 H2. apply key_name_digits_inj. apply lex_ltb_total; assumption. Qed.
+
+Theorem fc_names_edge_order_irrelevant g g' root fuel :
+  Permutation g g' -> findcycle_names g root fuel = findcycle_names g' root fuel.
+Proof. apply (fc_edge_order_irrelevant klt_name klt_name_asym klt_name_trans klt_name_total). Qed.
+
+(* ---------- sufficient conditions that can be checked on a concrete graph ---------- *)
+
+Section Conditions.
+  Variable g : graph.
+
+  Lemma chain_rank (rk : key -> nat) : (forall x y, dep g x y -> rk y < rk x) ->
+    forall l x, chain g (x :: l) -> forall y, In y l -> rk y < rk x.
+  Proof.
+    intros Hr. induction l as [|z l IH]; intros x Hc y Hy; [destruct Hy|].
+    cbn [chain] in Hc. destruct Hc as [Hd Hc]. specialize (Hr x z Hd).
+    destruct Hy as [Hy|Hy]; [subst z; exact Hr|]. specialize (IH z Hc y Hy). lia.
+  Qed.
+
+  (* a rank that decreases along every wait-for edge excludes closed walks *)
+  Lemma ranked_acyclic (rk : key -> nat) : (forall x y, dep g x y -> rk y < rk x) -> acyclic g.
+  Proof.
+    intros Hr y m Hc. unfold closed_walk in Hc.
+    pose proof (chain_rank rk Hr (m ++ [y]) y Hc y) as H.
+    assert (rk y < rk y) by (apply H; apply in_or_app; right; left; reflexivity). lia.
+  Qed.
+
+  Lemma last_In (x : key) w : In (last (x :: w) x) (x :: w).
+  Proof.
+    revert x. induction w as [|y w IH]; intros x; [left; reflexivity|].
+    right. change (last (x :: y :: w) x) with (last (y :: w) x). rewrite (last_cons_default y w x y). apply IH.
+  Qed.
+
+  Lemma all_wait_no_dead_end root : (forall x, In x (fc_nodes g root) -> exists p, dep g x p) -> no_dead_end g root.
+  Proof.
+    intros H w Hc. apply H. apply (chain_in_V g root w root (V_root g root) Hc). apply last_In.
+  Qed.
+End Conditions.
+
+(* ---------- examples (non-vacuity) ---------- *)
+
+(* unit test SimpleCycle: A = 1 requests B = 2, B requests A; build A.  Expected { A, B, A }. *)
+Definition g_simple : graph := [(2, 1); (1, 2)]%N.
+Example ex_simple_cycle : findcycle_names g_simple 1%N 10 = FcDone [1; 2; 1]%N.
+Proof. vm_compute. reflexivity. Qed.
+
+(* unit test CycleDuringScanningFromTop, second build: A's scan is deferred on B, B's scan on C, the task of C waits on B
+   (paused on B's scan record).  Expected { A, B, C, B }. *)
+Definition g_scanning : graph := [(3, 2); (2, 3); (2, 1)]%N.
+Example ex_scanning_cycle : findcycle_names g_scanning 1%N 10 = FcDone [1; 2; 3; 2]%N.
+Proof. vm_compute. reflexivity. Qed.
+
+(* the root is not on the cycle: 0 waits on 1, 1 on 2, 2 on 1 *)
+Example ex_root_outside : findcycle_names [(1, 0); (2, 1); (1, 2)]%N 0%N 10 = FcDone [0; 1; 2; 1]%N.
+Proof. vm_compute. reflexivity. Qed.
+
+Example ex_self_loop : findcycle_names [(5, 5)]%N 5%N 10 = FcDone [5; 5]%N.
+Proof. vm_compute. reflexivity. Qed.
+
+(* two cycles through the root: the sorted predecessor order decides, and it is the order of the NAMES: "k10" < "k9" *)
+Definition g_two : graph := [(9, 1); (10, 1); (1, 9); (1, 10)]%N.
+Example ex_two_cycles_names : findcycle_names g_two 1%N 10 = FcDone [1; 10; 1]%N.
+Proof. vm_compute. reflexivity. Qed.
+Example ex_two_cycles_numeric : findCycle N.ltb g_two 1%N 10 = FcDone [1; 9; 1]%N.
+Proof. vm_compute. reflexivity. Qed.
+Example ex_two_cycles_edge_order : findcycle_names (rev g_two) 1%N 10 = findcycle_names g_two 1%N 10.
+Proof. apply fc_names_edge_order_irrelevant. apply Permutation_sym. apply Permutation_rev. Qed.
+
+(* a dead end is explored and left before the cycle is found: 1 waits on 2 (nothing below) and on 3, 3 waits on 1 *)
+Example ex_backtrack : findcycle_names [(2, 1); (3, 1); (1, 3)]%N 1%N 10 = FcDone [1; 3; 1]%N.
+Proof. vm_compute. reflexivity. Qed.
+
+(* acyclic diamond: nothing is reported *)
+Definition g_diamond : graph := [(2, 1); (3, 1); (4, 2); (4, 3)]%N.
+Example ex_diamond_empty : findcycle_names g_diamond 1%N 20 = FcDone [].
+Proof. vm_compute. reflexivity. Qed.
+Example ex_diamond_acyclic : acyclic g_diamond.
+Proof.
+  apply (ranked_acyclic g_diamond (fun k => 10 - N.to_nat k)).
+  intros x y H. unfold dep, g_diamond in H. cbn [In] in H.
+  destruct H as [H|[H|[H|[H|[]]]]]; injection H as <- <-; vm_compute; lia.
+Qed.
+
+(* the hypothesis of fc_stall_finds_cycle / fc_stall_linear holds for the SimpleCycle graph *)
+Example ex_simple_no_dead_end : no_dead_end g_simple 1%N.
+Proof.
+  apply all_wait_no_dead_end. intros x Hx. vm_compute in Hx.
+  destruct Hx as [Hx|[Hx|[]]]; subst x; [exists 2%N | exists 1%N]; unfold dep, g_simple; cbn [In]; auto.
+Qed.
+Example ex_simple_cycle_reachable : cycle_reachable g_simple 1%N.
+Proof. apply no_dead_end_cycle. exact ex_simple_no_dead_end. Qed.
+
+(* out of fuel is a real outcome of the model when the fuel is too small *)
+Example ex_out_of_fuel : findcycle_names g_scanning 1%N 3 = FcOutOfFuel.
+Proof. vm_compute. reflexivity. Qed.
+
+(* ---------- the search is NOT polynomial: no finished set ---------- *)
+
+(* layers of two keys; both keys of a layer wait on both keys of the next layer; the last layer waits on nothing *)
+Fixpoint diamond_chain (n : nat) (base : N) : graph :=
+  match n with
+  | O => []
+  | S n' => [(base + 2, base); (base + 3, base); (base + 2, base + 1); (base + 3, base + 1)]%N ++ diamond_chain n' (base + 2)%N
+  end.
+Definition g_layers : graph := [(1, 0); (2, 0)]%N ++ diamond_chain 7 1%N.
+
+(* 17 keys, 30 edges, acyclic: the loop needs 1022 iterations (it doubles with every layer); the bound |V|*(|E|+1)+1 of
+   the design note (528 here) is refuted, and so is every polynomial bound by taking more layers. *)
+Theorem fc_polynomial_fuel_refuted :
+  length (fc_nodes g_layers 0%N) = 17 /\ length g_layers = 30 /\
+  findcycle_names g_layers 0%N (length (fc_nodes g_layers 0%N) * (length g_layers + 1) + 1) = FcOutOfFuel /\
+  findcycle_names g_layers 0%N 1021 = FcOutOfFuel /\
+  findcycle_names g_layers 0%N 1022 = FcDone [].
+Proof. vm_compute. repeat split; reflexivity. Qed.
